@@ -133,6 +133,9 @@ def _affine_add(c, P, Q):
     return (x, (lam * (P[0] - x) - P[1]) % p)
 
 
+_last_ids: t.Dict[tuple, tuple] = {}
+
+
 def one_case(rec: Recorder, rng, idx: int) -> None:
     from dpapi_ng import _gkdi as G
 
@@ -141,6 +144,14 @@ def one_case(rec: Recorder, rng, idx: int) -> None:
     seed = rng.randbytes(64)
     rkid = uuid.UUID(int=rng.getrandbits(128))
     l0, l1, l2 = rng.randrange(1000), rng.randrange(32), rng.randrange(31)
+    # every third case of a (hash, algorithm) pair keeps the identifiers (root key id and position) of the previous one
+    # while the seed - and with it the group public key, as under another security descriptor - is new: the KEK depends
+    # on the peer key actually given, not on the identifiers it came with
+    prev = _last_ids.get((h, alg))
+    if prev is not None and (idx // 24) % 3 == 1:
+        rkid, l0, l1, l2 = prev
+        rec.count("same_identifiers_other_seed")
+    _last_ids[(h, alg)] = (rkid, l0, l1, l2)
     wit: t.Dict[str, t.Any] = {"hash": h, "alg": alg, "seed": seed, "pos": [l0, l1, l2], "rkid": str(rkid)}
     nontrivial = False
     rec.count(f"alg_{alg}")
